@@ -56,13 +56,13 @@ def make_cases(ctx, vocab):
     subsets = [set(c) for n in range(1, 6) for c in itertools.combinations(["day", "month", "year", "weekday", "time"], n)]
     reps = 3 if ctx.quick() else 12
 
-    def add(s, kw, present, gen, parser, R, st=None, b2=None):
+    def add(s, kw, present, gen, parser, R, st=None, b2=None, y4=False):
         st = dict(st or {})
         # the quantifier: "with the absolute / custom-format / timestamp parsers" (a relative phrase
         # legitimately depends on the reference time; dsb lists 'now' as a month abbreviation)
         st.setdefault("PARSERS", ["timestamp", "custom-formats", "absolute-time"])
         cases.append({"s": s, "kw": kw, "settings": st, "b1": B1, "b2": b2 or rng.choice([B2, B3]), "R": R,
-                      "present": sorted(present & set(PARTS)), "gen": gen, "parser": parser, "api": "ddp", "probe": True,
+                      "present": sorted(present & set(PARTS)), "gen": gen, "parser": parser, "api": "ddp", "probe": True, "y4": bool(gen or y4),
                       "pdf": (st or {}).get("PREFER_DATES_FROM", "current_period")})
 
     # generated partial dates in English: every presence subset x every REQUIRE_PARTS subset
@@ -117,6 +117,25 @@ def make_cases(ctx, vocab):
             add(s_, {"languages": ["en"]}, set(), False, "abs", ["day", "month", "year"], st={"DATE_ORDER": o})
             cases[-1]["maxparts"] = 2
             cases[-1]["dorder"] = o
+    # fully stated dates (four-digit year, a day that can only be a day) in every order of WRITING, read under every
+    # DATE_ORDER and through the order of a locale, with every PREFER_DATES_FROM: references far before and far after
+    # the stated date (the preference moves only what the string leaves open)
+    full = []
+    for _ in range(12 if ctx.quick() else 80):
+        d, m, y = rng.randint(13, 28), rng.randint(1, 12), rng.choice([1985, 2014, 2021, 2050, 1999])
+        mn = rng.choice([MON[m - 1].capitalize(), MON[m - 1][:3].capitalize()])
+        full += ["%d %s %d" % (d, mn, y), "%s %d %d" % (mn, d, y), "%s %d, %d" % (mn, d, y), "%d %s %d" % (y, mn, d),
+                 "%d.%d.%d" % (d, m, y) if m > 9 else "%d %s, %d" % (d, mn, y), "%s %d-%d, %d" % (mn, d, d + 1, y)]
+    for s_ in full:
+        for o in rng.sample(["MDY", "DMY", "YMD", "YDM", "MYD", "DYM"], 2 if ctx.quick() else 6):
+            pdf = rng.choice(["past", "future", "current_period"])
+            add(s_, {"languages": ["en"]}, set(), False, "abs", rng.choice(RSETS[1:]), st={"DATE_ORDER": o, "PREFER_DATES_FROM": pdf},
+                b2=rng.choice([B2, [2120, 5, 17, 0, 0, 0, 0], [1900, 1, 1, 0, 0, 0, 0]]), y4=True)
+    for loc, s_ in [("hu", "15 március 2014"), ("hu", "2014 március 15"), ("ja", "2014年3月15日"), ("zh", "2014年3月15日"), ("ko", "2014년 3월 15일"),
+                    ("lt", "2014 kovo 15"), ("mn", "2014 3 15"), ("sv", "15 mars 2014"), ("en-CA", "15 March 2014"), ("en-ZA", "March 15 2014")]:
+        for pdf in ("past", "future", "current_period"):
+            add(s_, {"locales" if "-" in loc else "languages": [loc]}, set(), False, "abs", rng.choice(RSETS[1:]), st={"PREFER_DATES_FROM": pdf},
+                b2=rng.choice([B2, [2120, 5, 17, 0, 0, 0, 0]]), y4=True)
     # custom-format and timestamp parsers: the relational clauses
     for s, fmt in [("March 2015", "%B %Y"), ("2015", "%Y"), ("15 March", "%d %B"), ("15/03/2015", "%d/%m/%Y"),
                    ("10:30", "%H:%M"), ("March", "%B"), ("15", "%d")]:
@@ -167,7 +186,7 @@ def run(ctx):
     results = core.run_cases(ctx, "harness.lib", "call_c10", cases, chunk=50)
     records, nabs = [], 0
     for i, (c, r) in enumerate(zip(cases, results)):
-        rec = {"kind": "c10", "tid": i, "R": c["R"], "present": c["present"], "gen": c["gen"], "pdf": c["pdf"], "maxparts": c.get("maxparts", 3),
+        rec = {"kind": "c10", "tid": i, "R": c["R"], "present": c["present"], "gen": c["gen"], "pdf": c["pdf"], "maxparts": c.get("maxparts", 3), "y4": bool(c.get("y4")),
                "dorder": c.get("dorder", "")}
         rec.update(r["runs"])
         if c["parser"] == "fmt" and r["clock0"][:3] != r["clock1"][:3]:
